@@ -29,11 +29,13 @@ def link_fault_items(rng, timeout_ns, prev_keys, version, agent_cfg, lat):
                 it["rewrite"] = {"msg-id": rng.choice(["prev", "zero", "plus1", "xor1", "bit31", "bit32", rng.randrange(2**31)])}
                 if rng.random() < 0.4:
                     it["rewrite"]["engine-id"] = rng.choice(["80001f8880aabbccde", "0102030405"])
+                if rng.random() < 0.3:
+                    it["rewrite"]["ctx-name"] = rng.choice([b"ctx".hex(), b"\x00".hex(), ("61" * 40)])
             else:
                 it["rewrite"] = {"version": {"v1": 1, "v2c": 0}[version]}
         elif kind == "engine":
             if version == "v3":
-                it["rewrite"] = {"engine-id": rng.choice(["80001f8880aabbccde", "0102030405", ""])}
+                it["rewrite"] = {"engine-id": rng.choice(["80001f8880aabbccde", "0102030405", "", "ext:00", "ext:%02x" % rng.randrange(256), "ext:0102", "cut"])}
             else:
                 it["rewrite"] = {"request-id": "prev"}
         elif kind == "stale":
@@ -64,6 +66,9 @@ def link_fault_items(rng, timeout_ns, prev_keys, version, agent_cfg, lat):
     t += gen.latency(rng, 1000, max(2000, timeout_ns // 8))
     if fate == "deliver":
         items.append({"k": "genuine", "delay_ns": t})
+        if version == "v3" and rng.random() < 0.1:
+            # the answer names a context: still the answer
+            items[-1]["rewrite"] = {"ctx-name": rng.choice([b"ctx".hex(), b"vrf-blue".hex()])}
     elif fate == "dup":
         items.append({"k": "genuine", "delay_ns": t, "copies": rng.randint(2, 4)})
     elif fate == "late":
